@@ -648,9 +648,10 @@ def run_call(ctx, st, kind, n, h, a, am, k, start_rows, vector, overwrite, dtype
               sig=f"{kind}/call-pattern", theorem="C05_kernel(_purif)")
     if calls:
         # ... but HOW MANY units are drawn is constrained: every step draws every hidden (and auxiliary) unit and then every visible
-        # unit of every chain, so the number of Bernoulli elements drawn through torch.bernoulli is fixed by (B, k, sizes)
+        # unit of every chain, so the number of Bernoulli elements drawn through torch.bernoulli is fixed by (B, k, sizes); how a fresh
+        # start state is drawn (B*n more elements, or none when it comes from another torch function) is not part of a step
         tot = lambda shp: int(sum(int(np.prod(x)) for x in shp))  # noqa: E731
-        ctx.oracle(f"{tag}: every step draws every hidden (auxiliary) and visible unit of every chain exactly once", tot(got_shapes) == tot(exp_shapes), case,
+        ctx.oracle(f"{tag}: every step draws every hidden (auxiliary) and visible unit of every chain exactly once", tot(got_shapes) in ((tot(exp_shapes), tot(exp_shapes) - B * n) if init is None else (tot(exp_shapes),)), case,
                    detail={"elements_drawn": tot(got_shapes), "expected": tot(exp_shapes), "got": got_shapes}, sig=f"{kind}/draw-count",
                    theorem="C05_kernel(_purif)")
     if init is not None:
